@@ -65,11 +65,11 @@ def run_property(prop, tier, seed, workers=None, budget=None):
         if not run.violations and not run.harness:
             if prop == "C17":
                 phase_panel(run, pool)
-                phase_crash(run, pool, P.crash_programs_c17(seed), B["crash_jobs"])
+                phase_crash(run, pool, P.crash_programs_c17(seed), B["crash_jobs"][prop])
             else:
                 from . import program18 as P18
                 P18.phase_sweep(run, pool, B["sweep_len"])
-                phase_crash(run, pool, P18.crash_programs_c18(seed, tier), B["crash_jobs"])
+                phase_crash(run, pool, P18.crash_programs_c18(seed, tier), B["crash_jobs"][prop])
         seen_cls = set()
         for job, res in run.violations[:6]:
             kind, info = finalize_violation(run, pool, job, res, known)
